@@ -1,7 +1,602 @@
 package main
 
-// owned by the server area
+// Deterministic stepping of the real server (DESIGN.md section 4.4): one
+// scripted event at a time over an in-memory connection; after each event the
+// harness waits for quiescence using the verif progress counters, then reports
+// what the server wrote (decoded with x/net's hpack, independent of the code
+// under test) and which handlers it started.
 
-type srvConn struct{}
+import (
+	"bytes"
+	"errors"
+	"fmt"
+	"io"
+	"sort"
+	"strconv"
+	"strings"
+	"sync"
+	"time"
 
-func (r *runner) runSrv(f []string) string { return "bad-op" }
+	http2 "github.com/dgrr/http2"
+	"github.com/valyala/fasthttp"
+	"golang.org/x/net/http2/hpack"
+)
+
+const clientPreface = "PRI * HTTP/2.0\r\n\r\nSM\r\n\r\n"
+
+type respSpec struct {
+	status  int
+	hdr     [][2][]byte
+	kind    string // none | buf | stream | panic
+	body    []byte
+	size    int   // declared size of a streamed body (-1 unknown)
+	chunks  []int // sizes returned by successive reads
+	tail    byte  // 'e' EOF on a read of its own, 'E' EOF with the last chunk, 'x' error after the chunks
+	sid     uint32
+	patBase int
+}
+
+type srvConn struct {
+	mc        *memConn
+	served    chan struct{}
+	serveErr  error
+	outBuf    []byte
+	frames    int64
+	dones     int64
+	mu        sync.Mutex
+	entered   int64
+	parked    map[uint32]chan respSpec
+	dispatch  []string
+	dec       *hpack.Decoder
+	logMu     sync.Mutex
+	logLines  []string
+	inflight  int
+	maxInfl   int
+	returned  bool
+	gaugeMaxS int64
+	gaugeMaxR int64
+	gaugeMaxH int64
+}
+
+type capLogger struct{ s *srvConn }
+
+func (l capLogger) Printf(format string, args ...interface{}) {
+	l.s.logMu.Lock()
+	l.s.logLines = append(l.s.logLines, fmt.Sprintf(format, args...))
+	l.s.logMu.Unlock()
+}
+
+// pattern bytes: the body of stream sid at offset i
+func patByte(sid uint32, i int) byte { return byte((i*7 + int(sid)*13 + i/251) % 251) }
+
+func patBytes(sid uint32, off, n int) []byte {
+	b := make([]byte, n)
+	for i := range b {
+		b[i] = patByte(sid, off+i)
+	}
+	return b
+}
+
+// digest of a byte string: length, sum mod 65521, xor
+func digest(b []byte) string {
+	s, x := 0, 0
+	for _, c := range b {
+		s = (s + int(c)) % 65521
+		x ^= int(c)
+	}
+	return fmt.Sprintf("%d:%d:%d", len(b), s, x)
+}
+
+type scriptReader struct {
+	spec respSpec
+	i    int
+	off  int
+	done bool
+}
+
+func (r *scriptReader) Read(p []byte) (int, error) {
+	if r.i >= len(r.spec.chunks) {
+		if r.spec.tail == 'x' {
+			return 0, errors.New("scripted read error")
+		}
+		return 0, io.EOF
+	}
+	n := r.spec.chunks[r.i]
+	if n > len(p) {
+		n = len(p)
+		r.spec.chunks[r.i] -= n
+	} else {
+		r.i++
+	}
+	copy(p, patBytes(r.spec.sid, r.off, n))
+	r.off += n
+	if r.i >= len(r.spec.chunks) && r.spec.tail == 'E' {
+		return n, io.EOF
+	}
+	return n, nil
+}
+
+func parseKV(s string) (out [][2][]byte, ok bool) {
+	if s == "" || s == "-" {
+		return nil, true
+	}
+	for _, part := range strings.Split(s, ",") {
+		kv := strings.SplitN(part, ":", 2)
+		if len(kv) != 2 {
+			return nil, false
+		}
+		k, ok1 := unhex(kv[0])
+		v, ok2 := unhex(kv[1])
+		if !ok1 || !ok2 {
+			return nil, false
+		}
+		out = append(out, [2][]byte{k, v})
+	}
+	return out, true
+}
+
+func fmtKV(kvs [][2][]byte) string {
+	if len(kvs) == 0 {
+		return "-"
+	}
+	parts := make([]string, len(kvs))
+	for i, kv := range kvs {
+		parts[i] = hexOrDash(kv[0]) + ":" + hexOrDash(kv[1])
+	}
+	return strings.Join(parts, ",")
+}
+
+// parseResp: st=<n> hdr=<kv> body=<none|hex:<hex>|pat:<n>|stream:<size>:<n1.n2...>:<e|E|x>|panic>
+func parseResp(sid uint32, f []string) (respSpec, bool) {
+	sp := respSpec{status: 200, kind: "none", size: -1, sid: sid}
+	for _, a := range f {
+		switch {
+		case strings.HasPrefix(a, "st="):
+			sp.status, _ = strconv.Atoi(a[3:])
+		case strings.HasPrefix(a, "hdr="):
+			var ok bool
+			if sp.hdr, ok = parseKV(a[4:]); !ok {
+				return sp, false
+			}
+		case strings.HasPrefix(a, "view="):
+		case a == "body=none":
+			sp.kind = "none"
+		case a == "body=panic":
+			sp.kind = "panic"
+		case strings.HasPrefix(a, "body=hex:"):
+			b, ok := unhex(a[9:])
+			if !ok {
+				return sp, false
+			}
+			sp.kind, sp.body = "buf", b
+		case strings.HasPrefix(a, "body=pat:"):
+			n, _ := strconv.Atoi(a[9:])
+			sp.kind, sp.body = "buf", patBytes(sid, 0, n)
+		case strings.HasPrefix(a, "body=stream:"):
+			parts := strings.Split(a[12:], ":")
+			if len(parts) != 3 {
+				return sp, false
+			}
+			sp.kind = "stream"
+			sp.size, _ = strconv.Atoi(parts[0])
+			if parts[1] != "" && parts[1] != "-" {
+				for _, c := range strings.Split(parts[1], ".") {
+					n, _ := strconv.Atoi(c)
+					sp.chunks = append(sp.chunks, n)
+				}
+			}
+			sp.tail = parts[2][0]
+		default:
+			return sp, false
+		}
+	}
+	return sp, true
+}
+
+// applyResp builds the response the way the scripted handler does.
+func applyResp(res *fasthttp.Response, sp respSpec) {
+	res.SetStatusCode(sp.status)
+	for _, kv := range sp.hdr {
+		res.Header.AddBytesKV(kv[0], kv[1])
+	}
+	switch sp.kind {
+	case "buf":
+		res.SetBody(sp.body)
+	case "stream":
+		res.SetBodyStream(&scriptReader{spec: sp}, sp.size)
+	}
+}
+
+// responseView is the list of fields fasthttp yields for a response built by
+// applyResp, after the three adjustments fasthttpResponseHeaders makes (content
+// length of a buffered body, Connection and Transfer-Encoding removed). It is
+// the trusted abstraction of fasthttp's header storage (DESIGN.md C01).
+func responseView(sp respSpec) [][2][]byte {
+	var res fasthttp.Response
+	applyResp(&res, sp)
+	if !res.IsBodyStream() {
+		res.Header.SetContentLength(len(res.Body()))
+	}
+	res.Header.Del("Connection")
+	res.Header.Del("Transfer-Encoding")
+	var out [][2][]byte
+	for k, v := range res.Header.All() {
+		out = append(out, [2][]byte{append([]byte(nil), k...), append([]byte(nil), v...)})
+	}
+	return out
+}
+
+func (s *srvConn) handler(ctx *fasthttp.RequestCtx) {
+	sid, _ := http2.VerifStreamOf(ctx)
+	var fields [][2][]byte
+	for k, v := range ctx.Request.Header.All() {
+		lk := bytes.ToLower(k)
+		switch string(lk) {
+		case "host", "content-length":
+			continue
+		}
+		fields = append(fields, [2][]byte{lk, append([]byte(nil), v...)})
+	}
+	rec := fmt.Sprintf("dispatch(%d,m=%s,p=%s,a=%s,f=%s,b=%s)", sid,
+		hexOrDash(ctx.Request.Header.Method()), hexOrDash(ctx.Request.Header.RequestURI()),
+		hexOrDash(ctx.Request.Header.Host()), fmtKV(fields), digest(ctx.Request.Body()))
+	s.mu.Lock()
+	ch := s.parked[sid]
+	if ch == nil {
+		ch = make(chan respSpec, 1)
+		s.parked[sid] = ch
+	}
+	s.dispatch = append(s.dispatch, rec)
+	s.entered++
+	s.inflight++
+	if s.inflight > s.maxInfl {
+		s.maxInfl = s.inflight
+	}
+	s.mu.Unlock()
+	sp := <-ch
+	s.mu.Lock()
+	s.inflight--
+	s.mu.Unlock()
+	if sp.kind == "panic" {
+		panic("scripted handler panic")
+	}
+	applyResp(&ctx.Response, sp)
+}
+
+func newSrvConn(mcs, mhl, mrb int) *srvConn {
+	http2.VerifResetCounters()
+	s := &srvConn{mc: newMemConn(), served: make(chan struct{}), parked: map[uint32]chan respSpec{}}
+	s.dec = hpack.NewDecoder(4096, nil)
+	fs := &fasthttp.Server{Handler: s.handler, Logger: capLogger{s}}
+	if mrb > 0 {
+		fs.MaxRequestBodySize = mrb
+	}
+	srv := http2.VerifNewServer(fs, http2.ServerConfig{PingInterval: -1, MaxConcurrentStreams: mcs, MaxHeaderListSize: mhl})
+	go func() {
+		s.serveErr = srv.ServeConn(s.mc)
+		close(s.served)
+	}()
+	s.mc.in.write([]byte(clientPreface))
+	return s
+}
+
+var goAwaySites = []struct{ prefix, tag string }{
+	{"connection has been idle", "idle"},
+	{"extension frame inside a header block", "ext-in-block"},
+	{"expected a CONTINUATION frame", "want-cont"},
+	{"unexpected CONTINUATION frame", "stray-cont"},
+	{"stream flow-control window exceeded maximum", "stream-win-max"},
+	{"connection flow-control window exceeded maximum", "conn-win-max"},
+	{"frame on closed stream", "closed-stream"},
+	{"stream ID is lower than the latest", "lower-id"},
+	{"wrong payload for settings", "frame-error"},
+	{"settings with ack and payload", "frame-error"},
+	{"wrong value for SETTINGS", "frame-error"},
+	{"SETTINGS_INITIAL_WINDOW_SIZE above maximum", "frame-error"},
+	{"invalid ping payload", "frame-error"},
+}
+
+var codeTexts = []string{"No errors", "Protocol error", "Internal error", "Flow control error", "Settings timeout",
+	"Stream have been closed", "FrameHeader size error", "Refused Stream", "Stream canceled", "Compression error",
+	"Connection error", "Enhance your calm", "Inadequate security", "HTTP/1.1 required"}
+
+// goAwayTag maps the debug text of a GOAWAY to a call-site tag. Text produced
+// through writeError has the form "<code text>: <debug>".
+func goAwayTag(code uint32, msg string) string {
+	for _, ct := range codeTexts {
+		if strings.HasPrefix(msg, ct+": ") {
+			msg = msg[len(ct)+2:]
+			break
+		}
+	}
+	if code == 9 {
+		return "compression"
+	}
+	for _, s := range goAwaySites {
+		if strings.HasPrefix(msg, s.prefix) {
+			return s.tag
+		}
+	}
+	m := strings.Map(func(r rune) rune {
+		if r == ' ' || r == '|' || r == '(' || r == ')' || r == ',' {
+			return '_'
+		}
+		return r
+	}, msg)
+	if len(m) > 60 {
+		m = m[:60]
+	}
+	return m
+}
+
+func (s *srvConn) fmtFrame(fr rawFrame) string {
+	p := fr.payload
+	switch fr.typ {
+	case 0:
+		d := p
+		if fr.flags&8 != 0 && len(p) > 0 {
+			pad := int(p[0])
+			if pad+1 <= len(p) {
+				d = p[1 : len(p)-pad]
+			}
+		}
+		return fmt.Sprintf("D(%d,es=%d,len=%d,%s)", fr.stream, fr.flags&1, len(p), digest(d))
+	case 1:
+		frag := p
+		hfs, err := s.dec.DecodeFull(frag)
+		var kvs [][2][]byte
+		for _, hf := range hfs {
+			kvs = append(kvs, [2][]byte{[]byte(hf.Name), []byte(hf.Value)})
+		}
+		e := ""
+		if err != nil {
+			e = ",hpack-err"
+		}
+		return fmt.Sprintf("H(%d,es=%d,eh=%d,len=%d,%s%s)", fr.stream, fr.flags&1, (fr.flags>>2)&1, len(p), fmtKV(kvs), e)
+	case 3:
+		if len(p) == 4 {
+			return fmt.Sprintf("RST(%d,%d)", fr.stream, uint32(p[0])<<24|uint32(p[1])<<16|uint32(p[2])<<8|uint32(p[3]))
+		}
+	case 4:
+		if fr.flags&1 != 0 {
+			return "S(ack)"
+		}
+		var parts []string
+		for i := 0; i+6 <= len(p); i += 6 {
+			parts = append(parts, fmt.Sprintf("%d=%d", int(p[i])<<8|int(p[i+1]), uint32(p[i+2])<<24|uint32(p[i+3])<<16|uint32(p[i+4])<<8|uint32(p[i+5])))
+		}
+		return "S(" + strings.Join(parts, ",") + ")"
+	case 6:
+		return fmt.Sprintf("PING(ack=%d,%x)", fr.flags&1, p)
+	case 7:
+		if len(p) >= 8 {
+			last := (uint32(p[0])<<24 | uint32(p[1])<<16 | uint32(p[2])<<8 | uint32(p[3])) & 0x7fffffff
+			code := uint32(p[4])<<24 | uint32(p[5])<<16 | uint32(p[6])<<8 | uint32(p[7])
+			return fmt.Sprintf("GA(last=%d,code=%d,%s)", last, code, goAwayTag(code, string(p[8:])))
+		}
+	case 8:
+		if len(p) == 4 {
+			return fmt.Sprintf("WU(%d,%d)", fr.stream, (uint32(p[0])<<24|uint32(p[1])<<16|uint32(p[2])<<8|uint32(p[3]))&0x7fffffff)
+		}
+	}
+	return fmt.Sprintf("F(t=%d,fl=%d,s=%d,len=%d,%x)", fr.typ, fr.flags, fr.stream, len(p), p)
+}
+
+func (s *srvConn) enteredN() int64 { s.mu.Lock(); defer s.mu.Unlock(); return s.entered }
+
+func (s *srvConn) isServed() bool {
+	select {
+	case <-s.served:
+		return true
+	default:
+		return false
+	}
+}
+
+// quiesce waits until the server has nothing left to do for the events sent so
+// far and returns the canonical output of the step.
+func (s *srvConn) quiesce() string {
+	deadline := time.Now().Add(8 * time.Second)
+	stuck := false
+	for {
+		served := s.isServed()
+		s.outBuf = append(s.outBuf, s.mc.out.take()...)
+		frames, rest := parseFrames(s.outBuf)
+		n := int64(len(frames))
+		loopGone := http2.VerifLoopExitN.Load() > 0
+		ok := served
+		if !ok && !loopGone {
+			ok = s.mc.in.idle() &&
+				http2.VerifLoopTopN.Load() == 1+http2.VerifForwardedN.Load()+s.dones &&
+				s.enteredN() == http2.VerifDispatchedN.Load() &&
+				s.frames+n == 2+http2.VerifQueuedN.Load() && len(rest) == 0
+			if ok { // re-check after a pause: the counters must be stable
+				a, b, c := http2.VerifLoopTopN.Load(), http2.VerifQueuedN.Load(), http2.VerifForwardedN.Load()
+				time.Sleep(20 * time.Microsecond)
+				ok = a == http2.VerifLoopTopN.Load() && b == http2.VerifQueuedN.Load() && c == http2.VerifForwardedN.Load() && s.mc.in.idle()
+				if ok {
+					s.outBuf = append(s.outBuf, s.mc.out.take()...)
+					frames, rest = parseFrames(s.outBuf)
+					ok = int64(len(frames)) == n && len(rest) == 0
+				}
+			}
+		}
+		if !ok && time.Now().After(deadline) {
+			stuck, ok = true, true
+		}
+		if ok {
+			if g := http2.VerifStrms.Load(); g > s.gaugeMaxS {
+				s.gaugeMaxS = g
+			}
+			if g := http2.VerifRing.Load(); g > s.gaugeMaxR {
+				s.gaugeMaxR = g
+			}
+			if g := http2.VerifHeld.Load(); g > s.gaugeMaxH {
+				s.gaugeMaxH = g
+			}
+			var out []string
+			for _, fr := range frames {
+				out = append(out, s.fmtFrame(fr))
+			}
+			s.frames += int64(len(frames))
+			s.outBuf = rest
+			s.mu.Lock()
+			d := append([]string(nil), s.dispatch...)
+			s.dispatch = nil
+			s.mu.Unlock()
+			sort.Strings(d)
+			out = append(out, d...)
+			s.logMu.Lock()
+			for _, l := range s.logLines {
+				if strings.Contains(l, "panicked") {
+					out = append(out, "panic-logged")
+				} else if strings.Contains(l, "panic in the handler") {
+					out = append(out, "handler-panic-logged")
+				}
+			}
+			s.logLines = nil
+			s.logMu.Unlock()
+			if len(rest) != 0 && (served || stuck) {
+				out = append(out, fmt.Sprintf("partial(%d)", len(rest)))
+			}
+			if served && !s.returned {
+				s.returned = true
+				out = append(out, "returned")
+			}
+			if stuck {
+				out = append(out, "stuck")
+			}
+			if len(out) == 0 {
+				return "out -"
+			}
+			return "out " + strings.Join(out, " | ")
+		}
+		time.Sleep(30 * time.Microsecond)
+	}
+}
+
+func (s *srvConn) gauges() string {
+	return fmt.Sprintf("strms=%d open=%d ring=%d held=%d", http2.VerifStrms.Load(), http2.VerifOpen.Load(), http2.VerifRing.Load(), http2.VerifHeld.Load())
+}
+
+func argInt(f []string, key string, def int) int {
+	for _, a := range f {
+		if strings.HasPrefix(a, key+"=") {
+			n, err := strconv.Atoi(a[len(key)+1:])
+			if err == nil {
+				return n
+			}
+		}
+	}
+	return def
+}
+
+func (r *runner) runSrv(f []string) string {
+	if len(f) < 3 {
+		return "bad-op"
+	}
+	id, op := f[1], f[2]
+	if op == "new" {
+		if old := r.srv[id]; old != nil {
+			old.shutdown()
+		}
+		s := newSrvConn(argInt(f, "mcs", 100), argInt(f, "mhl", 0), argInt(f, "mrb", 0))
+		r.srv[id] = s
+		return s.quiesce()
+	}
+	s := r.srv[id]
+	if s == nil {
+		return "bad-op"
+	}
+	switch op {
+	case "frame", "bytes":
+		if len(f) != 4 {
+			return "bad-op"
+		}
+		b, ok := unhex(f[3])
+		if !ok {
+			return "bad-op"
+		}
+		if s.returned {
+			return "out gone"
+		}
+		s.mc.in.write(b)
+		return s.quiesce()
+	case "done":
+		if len(f) < 4 {
+			return "bad-op"
+		}
+		sid64, _ := strconv.ParseUint(f[3], 10, 32)
+		sp, ok := parseResp(uint32(sid64), f[4:])
+		if !ok {
+			return "bad-op"
+		}
+		s.mu.Lock()
+		ch := s.parked[uint32(sid64)]
+		if ch != nil {
+			delete(s.parked, uint32(sid64))
+		}
+		s.mu.Unlock()
+		if ch == nil {
+			return "out no-handler"
+		}
+		s.dones++
+		ch <- sp
+		return s.quiesce()
+	case "cut":
+		s.mc.in.close()
+		return s.quiesce()
+	case "idle":
+		if s.returned {
+			return "out gone"
+		}
+		http2.VerifCloseIdle()
+		return s.quiesce()
+	case "gauges":
+		if s.returned {
+			return "ok gone"
+		}
+		return "ok " + s.gauges()
+	case "end":
+		return s.end()
+	case "mon":
+		return s.mon()
+	}
+	return "bad-op"
+}
+
+// shutdown releases every parked handler and closes the connection.
+func (s *srvConn) shutdown() {
+	s.mc.Close()
+	s.mu.Lock()
+	for sid, ch := range s.parked {
+		ch <- respSpec{status: 200, kind: "none", sid: sid}
+		delete(s.parked, sid)
+	}
+	s.mu.Unlock()
+	select {
+	case <-s.served:
+	case <-time.After(3 * time.Second):
+	}
+}
+
+// end: the peer goes away. Reports whether ServeConn returned, the largest
+// number of handlers that ran at once, and pool-tracker anomalies.
+func (s *srvConn) end() string {
+	s.mc.in.close()
+	ret := "returned"
+	select {
+	case <-s.served:
+	case <-time.After(3 * time.Second):
+		ret = "not-returned"
+	}
+	s.shutdown()
+	return "ok " + ret
+}
+
+// mon: monitor values the model does not predict (it answers "mon").
+func (s *srvConn) mon() string {
+	s.mu.Lock()
+	defer s.mu.Unlock()
+	return fmt.Sprintf("mon maxinflight=%d inflight=%d maxstrms=%d maxring=%d maxheld=%d", s.maxInfl, s.inflight, s.gaugeMaxS, s.gaugeMaxR, s.gaugeMaxH)
+}
